@@ -69,8 +69,8 @@ def run(ctx):
         how = art.get("how") or {}
         if str(how.get("mode", "")).startswith("authority"):
             a = how.get("driver_args")
-            if how["mode"] == "authority-chain" and a:
-                ac.chains(ctx, int(a[a.index("-runs") + 1]), int(a[a.index("-blocks") + 1]))
+            if how["mode"] in ("authority-chain", "authority-bignet") and a:
+                ac.bind_chain(ctx, how["mode"][10:], a, demo=False)
             else:
                 ac.replay_behaviours(ctx, int(how.get("num", 20)))
             ctx.cov["rule"] = "replay of " + ctx.replay
